@@ -14,11 +14,11 @@ import (
 
 // scenBase gives scenario-driven properties their common fw.Property plumbing.
 type scenBase struct {
-	id      string
-	quickN  int
-	thorN   int
-	batchQ  int
-	batchT  int
+	id     string
+	quickN int
+	thorN  int
+	batchQ int
+	batchT int
 }
 
 func (b *scenBase) ID() string { return b.id }
